@@ -1365,6 +1365,7 @@ struct named_locale
 #include <fcppt/narrow_locale.hpp>
 #include <fcppt/widen.hpp>
 #include <fcppt/widen_locale.hpp>
+#include <codecvt>
 
 namespace
 {
@@ -1534,9 +1535,42 @@ std::vector<std::string> byte_inputs()
   return r;
 }
 
+// conversion facets that behave differently from glibc's (which swallows an incomplete trailing sequence into the
+// mbstate and answers ok): std::codecvt_utf8 reports it as `partial` without consuming anything, as the standard words
+// it; and three degenerate facets - one that never makes progress, one that always fails, one that never converts.
+// Whatever the facet does, the conversion functions must come back (a value, nothing, or the documented exception).
+template <std::codecvt_base::result Answer>
+struct fixed_answer_cvt : std::codecvt<wchar_t, char, std::mbstate_t>
+{
+  result do_out(std::mbstate_t &, wchar_t const *f, wchar_t const *, wchar_t const *&fn, char *t, char *, char *&tn) const override
+  {
+    fn = f;
+    tn = t;
+    return Answer;
+  }
+  result do_in(std::mbstate_t &, char const *f, char const *, char const *&fn, wchar_t *t, wchar_t *, wchar_t *&tn) const override
+  {
+    fn = f;
+    tn = t;
+    return Answer;
+  }
+  int do_max_length() const noexcept override { return 4; }
+  int do_encoding() const noexcept override { return 0; }
+  bool do_always_noconv() const noexcept override { return false; }
+};
+std::vector<named_locale> codecvt_locales()
+{
+  std::vector<named_locale> r = locales(); // the punct locale has the classic codecvt facet
+  r.push_back({"std::codecvt_utf8", std::locale(std::locale::classic(), new std::codecvt_utf8<wchar_t>)});
+  r.push_back({"facet-always-partial", std::locale(std::locale::classic(), new fixed_answer_cvt<std::codecvt_base::partial>)});
+  r.push_back({"facet-always-error", std::locale(std::locale::classic(), new fixed_answer_cvt<std::codecvt_base::error>)});
+  r.push_back({"facet-always-noconv", std::locale(std::locale::classic(), new fixed_answer_cvt<std::codecvt_base::noconv>)});
+  return r;
+}
+
 void codecvt_all()
 {
-  auto const locs = locales(); // the punct locale has the classic codecvt facet
+  auto const locs = codecvt_locales();
   auto const wide = wide_inputs();
   auto const bytes = byte_inputs();
   for (std::size_t li = 0; li <= locs.size(); ++li)
